@@ -188,32 +188,43 @@ func judgePool(c PoolCase, pr *poolRun) *ev.Result {
 	if n := len(pr.stopRets); n > 0 {
 		lastStop = pr.stopRets[n-1]
 	}
-	// jobs that wait for their context occupy a worker until Stop: the exactly-once-by-quiescence
-	// rule only applies while at least one worker remains available
-	ctxJobs := 0
-	for _, j := range pr.jobs {
-		if j.kind == "ctx" {
-			ctxJobs++
-		}
-	}
 	w := c.Workers
 	if w < 1 {
 		w = 1
+	}
+	// generation of a job = the Run that was the last to return before the Send began
+	genStart := func(j *jobRec) int {
+		g := 0
+		for _, rr := range pr.runRets {
+			if rr < j.sendCall && rr > g {
+				g = rr
+			}
+		}
+		return g
 	}
 	for _, j := range pr.jobs {
 		if len(j.starts) > 1 {
 			r.Failf("job %d (%s) was executed %d times", j.id, j.kind, len(j.starts))
 			return r
 		}
-		if j.whileRunning && !c.Lifecyle && j.kind != "ctx" && j.sendRet < pr.idleAt && ctxJobs < w {
-			// accepted while the pool was running and no Stop was called before quiescence
+		if j.whileRunning && !c.Lifecyle && j.kind != "ctx" && j.sendRet < pr.idleAt {
+			// accepted while the pool was running, and no Stop was called from then until quiescence.
+			// Jobs that wait for their context occupy a worker until Stop: the rule only applies while
+			// at least one worker of this generation remains available.
+			g := genStart(j)
+			ctxJobs := 0
+			for _, o := range pr.jobs {
+				if o.kind == "ctx" && o.sendCall > g && o.sendCall < pr.idleAt {
+					ctxJobs++
+				}
+			}
 			stoppedBeforeIdle := false
 			for _, sc := range pr.stopCalls {
-				if sc < pr.idleAt {
+				if sc > j.sendCall && sc < pr.idleAt {
 					stoppedBeforeIdle = true
 				}
 			}
-			if !stoppedBeforeIdle && (len(j.starts) != 1 || len(j.ends) != 1 || j.ends[0] > pr.idleAt) {
+			if ctxJobs < w && !stoppedBeforeIdle && (len(j.starts) != 1 || len(j.ends) != 1 || j.ends[0] > pr.idleAt) {
 				r.Failf("job %d (%s), handed to Send [%d..%d] while the pool was running, was executed %d times by the time the pool went idle (no Stop, no further Send): it is stranded", j.id, j.kind, j.sendCall, j.sendRet, len(j.starts))
 				return r
 			}
@@ -294,6 +305,9 @@ func annotatePool(c PoolCase, pr *poolRun, r *ev.Result) {
 		r.NonTrivial = true
 		r.Class("deferred-path")
 	}
+	if len(pr.runRets) >= 2 && len(c.Pre) > 1 {
+		r.Class("second-generation")
+	}
 	if c.Lifecyle {
 		r.Class("lifecycle")
 		r.NonTrivial = r.NonTrivial || len(pr.stopCalls)+len(pr.runRets) >= 2
@@ -308,6 +322,16 @@ func sends(n int, job string) []POp {
 	return s
 }
 
+// firstGeneration is a sequential prologue: run, park every worker with a job that waits for its
+// context, push n no-op jobs behind them (more than the channel holds: the deferred list and its
+// flusher are busy), stop, run again.
+func firstGeneration(workers, n int) []POp {
+	pre := []POp{{K: "run"}}
+	pre = append(pre, sends(workers, "ctx")...)
+	pre = append(pre, sends(n, "noop")...)
+	return append(pre, POp{K: "stop"}, POp{K: "run"})
+}
+
 func c16Catalogue() []PoolCase {
 	run, stop := []POp{{K: "run"}}, []POp{{K: "stop"}}
 	return []PoolCase{
@@ -320,6 +344,9 @@ func c16Catalogue() []PoolCase {
 		{Workers: 1, Pre: run, Post: stop, Actors: [][]POp{append(sends(1, "ctx"), sends(2, "noop")...)}},
 		{Workers: 1, Lifecyle: true, Actors: [][]POp{{{K: "run"}, {K: "send", Job: "noop"}, {K: "stop"}}, {{K: "stop"}}}},
 		{Workers: 1, Lifecyle: true, Actors: [][]POp{{{K: "run"}}, {{K: "send", Job: "noop"}}, {{K: "stop"}}}},
+		// second generation: a first Run/Stop cycle that ended with a busy flusher, then the deferred path again
+		{Workers: 1, Pre: firstGeneration(1, 5), Post: stop, Actors: [][]POp{append(sends(1, "gate"), sends(4, "noop")...)}},
+		{Workers: 2, Pre: firstGeneration(2, 8), Post: stop, Actors: [][]POp{append(sends(2, "gate"), sends(6, "noop")...)}},
 	}
 }
 
@@ -403,6 +430,9 @@ func genPool(t *rapid.T) PoolCase {
 				c.Post = append(c.Post, POp{K: "run"}, POp{K: "send", Job: "noop"}, POp{K: "stop"})
 			}
 		}
+	}
+	if !c.Lifecyle && rapid.IntRange(0, 3).Draw(t, "secondGeneration") == 0 {
+		c.Pre = firstGeneration(rapid.IntRange(0, c.Workers).Draw(t, "parked"), rapid.IntRange(0, 3*c.Workers+3).Draw(t, "gen1sends"))
 	}
 	// the stranded-job window needs three or more specific decisions: favour random-walk tapes
 	if rapid.IntRange(0, 3).Draw(t, "tape") > 0 {
